@@ -301,7 +301,7 @@ Definition final_choice (t : tree) (perm : list nat) (rs : rstream) : res (rmove
     let* (best, rs1) := best_loop sorted c0 0%Z rs in
     if negb (t_proven t =? 0)%Z then
       match sorted with
-      | [] => Panic
+      | [] => Err                                                        (* not a sorting permutation: len is unchanged in Go *)
       | s0 :: _ => Ok (t_move (fold_left (fun b c => if (t_proven c <? t_proven b)%Z then c else b) sorted s0), rs1)
       end
     else Ok (t_move best, rs1)
